@@ -201,7 +201,13 @@ func NewSim(seed uint64, cfg SwarmConfig, replay *Trace) (*Sim, error) {
 		return nil, fmt.Errorf("initchain n0: %w", err)
 	}
 	if cfg.Replica {
-		if s.N1, err = NewNode("n1", NewSimDB(), nil); err != nil {
+		if cfg.ProdBoot {
+			s.N1, err = NewProdNode("n1", NewSimDB())
+			s.Stats.Inc("fault/replica_started_the_production_way", 1)
+		} else {
+			s.N1, err = NewNode("n1", NewSimDB(), nil)
+		}
+		if err != nil {
 			return nil, err
 		}
 		if err = s.N1.InitChain(s.W); err != nil {
